@@ -12,7 +12,8 @@ META = dict(
               "abstract trees, DropEmptyDirs, id-free Projection/Unfold, laws GitRoundTrip / IncrementalEqualsScratch / "
               "GitOriginStable), model-checked by TLC on a generated universe of histories; the TLC-generated histories "
               "are materialised as real 2a branches, pushed to real bare git repositories with InterToLocalGitRepository, "
-              "fetched back, converted by BazaarObjectStore with warm / cold / no caches, built as git repositories with "
+              "fetched back (in one round and in two rounds into the same repository), converted by BazaarObjectStore with "
+              "warm / cold / no caches (tree SHAs and the emitted object sets with their references), built as git repositories with "
               "dulwich and imported; the recorded projections and SHAs are judged by TLC with the same law text",
     level_text="TLC checks on every reachable state of the generator (exhaustive for small constants, random walks for the "
                "larger ones) that DropEmptyDirs is well defined (declarative = operational, idempotent, keeps every file and "
@@ -26,7 +27,10 @@ META = dict(
                "pointless commits, merges (<= 3 parents in thorough), several roots, tags. Native -> git uses the lossy push "
                "(`brz push --lossy` / dpush: the default mapping does not round-trip, a plain push raises "
                "NoRoundtrippingSupport), through InterToGitBranch.push and through InterToLocalGitRepository.fetch_refs; "
-               "fetch back through Branch.pull and Repository.fetch. Repositories live on disk (tmpfs) so that each has its "
+               "fetch back through Branch.pull and Repository.fetch, also in two rounds (first what one parent of the tip "
+               "reaches, then the rest, by freshly opened objects into the same repository). The objects emitted revision by "
+               "revision must be closed under references and be exactly the from-scratch objects. The replayed sample is "
+               "stratified by situation classes over a pool of several hundred TLC walks. Repositories live on disk (tmpfs) so that each has its "
                "own git cache. SHA-1 values are opaque to the spec. Names git cannot hold ('.git') are outside the model. "
                "Violation signatures name the class of the delta-debugged minimal failing history; the python twin of the "
                "laws used for shrinking must agree with TLC on every row (else drift). Trusted: TLC, the JSON bridge, "
@@ -521,7 +525,7 @@ def run(ctx):
     cc.preload()
     cc.quiet()
     q = ctx.quick
-    hs = cc.universe_stratified(ctx, REQUIRED, npool_large=260 if q else 3000, npool_dirs=160 if q else 1500,
+    hs = cc.universe_stratified(ctx, REQUIRED, npool_large=260 if q else 3000, npool_dirs=320 if q else 2500,
                                 per_stratum=4 if q else 50, quota=95 if q else 1500, max_revs=4 if q else 5)
     items = []
     for i, h in enumerate(hs):
@@ -548,11 +552,16 @@ def run(ctx):
     ctx.cov["histories"] = len(hs)
     for r in (rows[0], rows[len(rows) // 2], rows[-1]):
         ctx.sample({"kind": r["kind"], "c": r["c"], "o": cc.lean(r["o"])})
-    ctx.rule("histories = final states of TLC random walks of HistoryChannelGen (small constants: 3 paths, <= 3 revisions; "
-             "large: 10 paths, 4 contents, <= 3 edits per commit, merges, roots, tags, <= %d revisions) after TLC checked the "
-             "in-spec laws exhaustively on the small universes; every history is replayed natively (push both ways, three "
-             "SHA computations, staged push), every second one also as a git-built repository; non-trivial = more than one "
-             "revision or more than one path; distinct = (experiment kind, history)" % (4 if q else 5))
+    ctx.rule("TLC checks the in-spec laws exhaustively on the small universes and on every 4th finished walk of two pools of "
+             "random walks of HistoryChannelGen (large: 10 paths, 4 contents, <= 3 edits per commit, merges, roots, tags, <= %d "
+             "revisions; directories: a populated directory to start with, so that moves out of / between directories and "
+             "directory renames with changes inside are frequent). Every history of the pools is classified (merge, rename, "
+             "dirrename, kind change, ..., moveout, diremptied, dirrename-loses-entry, tipmerge-left/right, ...); the replayed "
+             "sample takes up to %d histories of EVERY class, then random ones; a required class without a history is a "
+             "machinery failure. Every sampled history is replayed natively (push both ways, one round and two rounds with a "
+             "parent of the tip first, three SHA computations, incremental vs from-scratch object sets), every second one also "
+             "as a git-built repository; non-trivial = more than one revision or more than one path; distinct = (experiment "
+             "kind, history)" % (4 if q else 5, 4 if q else 50))
     ctx.assume("native -> git is the lossy push (dpush): the default mapping cannot round-trip native revisions")
     ctx.assume("'(empty directories excepted)' is read in both directions: trees are compared after DropEmptyDirs; a stray "
                "empty directory is reported as drift only")
